@@ -127,6 +127,10 @@ func c11Confusables(r *Run) {
 		{"C11 Demo CA", 17, "C11 Demo CA_1", 7},
 		{"C11 Demo CA ", 5, "C11 Demo CA", 5},
 		{"C11 Demo CA 0", 1, "C11 Demo CA ", 1},
+		// the separator inside the serial's octets: "CA_G2" + 0x01 vs "CA" + "G2_\x01"
+		{"C11 Demo CA_G2", 1, "C11 Demo CA", 0x47325F01},
+		{"C11 Demo CA", 0x47325F01, "C11 Demo CA_G2", 1},
+		{"C11 Demo CA_", 0x5F, "C11 Demo CA", 0x5F5F},
 	}
 	var jobs []struct {
 		p       pair
